@@ -278,49 +278,68 @@ Qed.
 
 Definition oabs (h : heap) (o : option ppl) : option apipe := option_map (abs h) o.
 Definition ovalid (h : heap) (o : option ppl) : Prop := forall p, o = Some p -> valid h p.
-Definition amach_of (h : heap) (m : mach) : amach :=
-  {| am_regs := map (abs h) (mc_regs m); am_lastA := oabs h (mc_lastA m); am_lastB := oabs h (mc_lastB m);
-     am_res := mc_res m; am_fresh := mc_fresh m |}.
-Definition allvalid (h : heap) (m : mach) : Prop :=
-  Forall (valid h) (mc_regs m) /\ ovalid h (mc_lastA m) /\ ovalid h (mc_lastB m).
-
-Lemma oabs_frame h h' o : frame h h' -> ovalid h o -> oabs h' o = oabs h o /\ ovalid h' o.
-Proof.
-  intros F V. destruct o as [p|]; cbn.
-  - destruct (abs_stable _ _ p F (V p eq_refl)) as [E Vp]. rewrite E. split; [reflexivity|].
-    intros q Hq. inversion Hq; subst. exact Vp.
-  - split; [reflexivity | intros q Hq; discriminate].
-Qed.
+Lemma fmt_eqb_eq a b : fmt_eqb a b = true -> a = b.
+Proof. destruct a, b; cbn; intros H; try reflexivity; discriminate. Qed.
 
 Section Machines.
-  Variables (f : fmt) (t : list (str * rent ppl)) (bk outf : ppl) (rules : list rule).
+  Variables (t : list (str * rent ppl)) (bk : ppl) (outf : fmt -> ppl) (rules : list rule).
   Hypothesis t_objs : objs_only t.
 
-  Definition fixedok (h : heap) : Prop := (forall e, In e t -> valid h (ent_ppl e)) /\ valid h bk /\ valid h outf.
-  Definition inv (m : mach) (a : amach) (atab : list (str * rent aval)) (abk aoutf : apipe) : Prop :=
-    a = amach_of (mc_heap m) m /\ allvalid (mc_heap m) m /\ fixedok (mc_heap m) /\
-    atab = map (gent (mc_heap m)) t /\ abk = abs (mc_heap m) bk /\ aoutf = abs (mc_heap m) outf.
+  Definition fixedok (h : heap) : Prop :=
+    (forall e, In e t -> valid h (ent_ppl e)) /\ valid h bk /\ forall f, valid h (outf f).
+  (* the backend object's pipeline is the composition, for the format it was built for, of the values
+     the specification remembers *)
+  Definition lastrel (h : heap) (abk : apipe) (aoutf : fmt -> apipe)
+             (ml : option (ppl * fmt)) (al : option (option apipe)) : Prop :=
+    match ml, al with
+    | Some pf, Some up => ainit (snd pf) abk up (aoutf (snd pf)) = Ok (abs h (fst pf)) /\ valid h (fst pf)
+    | None, None => True
+    | _, _ => False
+    end.
+  Definition inv (m : mach) (a : amach) (atab : list (str * rent aval)) (abk : apipe) (aoutf : fmt -> apipe) : Prop :=
+    am_regs a = map (abs (mc_heap m)) (mc_regs m) /\ am_res a = mc_res m /\ am_fresh a = mc_fresh m /\
+    lastrel (mc_heap m) abk aoutf (mc_lastA m) (am_lastA a) /\
+    lastrel (mc_heap m) abk aoutf (mc_lastB m) (am_lastB a) /\
+    Forall (valid (mc_heap m)) (mc_regs m) /\ fixedok (mc_heap m) /\
+    atab = map (gent (mc_heap m)) t /\ abk = abs (mc_heap m) bk /\ (forall f, aoutf f = abs (mc_heap m) (outf f)).
 
   Lemma fixed_frame h h' : frame h h' -> fixedok h ->
-    fixedok h' /\ map (gent h') t = map (gent h) t /\ abs h' bk = abs h bk /\ abs h' outf = abs h outf.
+    fixedok h' /\ map (gent h') t = map (gent h) t /\ abs h' bk = abs h bk /\ (forall f, abs h' (outf f) = abs h (outf f)).
   Proof.
     intros F (Vr & Vb & Vo).
-    destruct (abs_stable _ _ bk F Vb) as [Eb Vb'], (abs_stable _ _ outf F Vo) as [Eo Vo'].
-    split; [split; [|split; assumption]|]. 
+    destruct (abs_stable _ _ bk F Vb) as [Eb Vb'].
+    split; [split; [|split]|split; [|split]].
     - intros e He. apply (abs_stable h h' _ F). apply Vr. exact He.
-    - split; [|split; assumption].
-      apply map_ext_in. intros e He. unfold gent. specialize (Vr e He). unfold ent_ppl in Vr.
+    - exact Vb'.
+    - intros f. apply (abs_stable h h' _ F). apply Vo.
+    - apply map_ext_in. intros e He. unfold gent. specialize (Vr e He). unfold ent_ppl in Vr.
       destruct (snd e) as [p|d|ds]; [|reflexivity|reflexivity].
       unfold gval. destruct (abs_stable _ _ p F Vr) as [E _]. rewrite E. reflexivity.
+    - exact Eb.
+    - intros f. apply (abs_stable h h' _ F). apply Vo.
   Qed.
-  Lemma mach_frame h h' m : frame h h' -> allvalid h m -> amach_of h' m = amach_of h m /\ allvalid h' m.
+  Lemma lastrel_frame h h' abk aoutf ml al : frame h h' -> lastrel h abk aoutf ml al -> lastrel h' abk aoutf ml al.
   Proof.
-    intros F (Vr & Va & Vb). destruct (valid_all_frame _ _ _ F Vr) as [Vr' Er].
-    destruct (oabs_frame _ _ _ F Va) as [Ea Va'], (oabs_frame _ _ _ F Vb) as [Eb Vb'].
-    split; [unfold amach_of; rewrite Er, Ea, Eb; reflexivity | repeat split; assumption].
+    intros F. unfold lastrel. destruct ml as [pf|], al as [up|]; try exact (fun x => x).
+    intros (E & V). destruct (abs_stable _ _ _ F V) as [Ea V']. rewrite Ea. split; assumption.
   Qed.
 
-  Definition osim (mo : outcome mach) (ao : outcome amach) (atab : list (str * rent aval)) (abk aoutf : apipe) : Prop :=
+  Definition with_heap (m : mach) (h : heap) : mach :=
+    {| mc_heap := h; mc_regs := mc_regs m; mc_lastA := mc_lastA m; mc_lastB := mc_lastB m; mc_res := mc_res m;
+       mc_fresh := mc_fresh m |}.
+  Lemma inv_heap m a atab abk aoutf h' : inv m a atab abk aoutf -> frame (mc_heap m) h' ->
+    inv (with_heap m h') a atab abk aoutf.
+  Proof.
+    intros (Er & Es & Ef & LA & LB & Vr & Fx & Et & Eb & Eo) F.
+    destruct (valid_all_frame _ _ _ F Vr) as [Vr' Em]. destruct (fixed_frame _ _ F Fx) as (Fx' & Et' & Eb' & Eo').
+    unfold inv, with_heap. cbn [mc_heap mc_regs mc_lastA mc_lastB mc_res mc_fresh].
+    split; [congruence|]. split; [exact Es|]. split; [exact Ef|].
+    split; [eapply lastrel_frame; eassumption|]. split; [eapply lastrel_frame; eassumption|].
+    split; [exact Vr'|]. split; [exact Fx'|]. split; [congruence|]. split; [congruence|].
+    intros f. rewrite Eo, Eo'. reflexivity.
+  Qed.
+
+  Definition osim (mo : outcome mach) (ao : outcome amach) (atab : list (str * rent aval)) (abk : apipe) (aoutf : fmt -> apipe) : Prop :=
     match mo, ao with
     | Ok m', Ok a' => inv m' a' atab abk aoutf
     | SigmaErr x, SigmaErr x' => x = x'
@@ -333,34 +352,40 @@ Section Machines.
     inv m a atab abk aoutf -> frame (mc_heap m) h' -> absr h' r = ar -> (forall s, r = Ok s -> valid h' s) ->
     osim (mc_push m c (h', r)) (obind ar (fun p => Ok (am_push a c p))) atab abk aoutf.
   Proof.
-    intros (Ea & Av & Fx & Er & Eb & Eo) F S V. subst ar. unfold mc_push. cbn [snd fst].
+    intros I F S V. subst ar. unfold mc_push. cbn [snd fst].
     destruct r as [s|x|x]; cbn [absr obind osim]; try reflexivity.
-    destruct (mach_frame _ _ m F Av) as [Em (Vr & Va & Vb)].
-    destruct (fixed_frame _ _ F Fx) as (Fx' & Er' & Eb' & Eo').
-    unfold inv. cbn [mc_heap mc_regs mc_lastA mc_lastB mc_res mc_fresh].
-    split; [|split; [|split; [exact Fx' | split; [congruence | split; congruence]]]].
-    - subst a. unfold amach_of, am_push in *.
-      cbn [mc_regs mc_lastA mc_lastB mc_res mc_fresh am_regs am_lastA am_lastB am_res am_fresh] in *.
-      inversion Em as [[E1 E2 E3]]. rewrite map_app. cbn [map]. rewrite E1, E2, E3. reflexivity.
-    - unfold allvalid. cbn [mc_regs mc_lastA mc_lastB]. split; [|split; assumption].
-      apply Forall_app. split; [exact Vr | constructor; [apply V; reflexivity | constructor]].
+    destruct (inv_heap _ _ _ _ _ _ I F) as (Er & Es & Ef & LA & LB & Vr & Fx & Et & Eb & Eo).
+    unfold with_heap in *. cbn [mc_heap mc_regs mc_lastA mc_lastB mc_res mc_fresh] in *.
+    unfold inv, am_push. cbn [mc_heap mc_regs mc_lastA mc_lastB mc_res mc_fresh am_regs am_lastA am_lastB am_res am_fresh].
+    split; [rewrite map_app, Er; reflexivity|]. split; [exact Es|]. split; [reflexivity|].
+    split; [exact LA|]. split; [exact LB|].
+    split; [apply Forall_app; split; [exact Vr | constructor; [apply V; reflexivity | constructor]]|].
+    split; [exact Fx|]. split; [exact Et|]. split; [exact Eb | exact Eo].
   Qed.
 
-  Lemma setlast_sim m a atab abk aoutf b h' r ar :
-    inv m a atab abk aoutf -> frame (mc_heap m) h' -> absr h' r = ar -> (forall s, r = Ok s -> valid h' s) ->
-    osim (mc_set_last m b (h', r)) (obind ar (fun p => Ok (am_set_last a b p))) atab abk aoutf.
+  (* (re)building the backend object's pipeline: init_processing_pipeline *)
+  Lemma setlast_sim m a atab abk aoutf b f up h' r :
+    inv m a atab abk aoutf -> frame (mc_heap m) h' -> absr h' r = ainit f abk up (aoutf f) ->
+    (forall s, r = Ok s -> valid h' s) ->
+    match mc_set_last m b f (h', r), ainit f abk up (aoutf f) with
+    | Ok m', Ok p => inv m' (am_set_last a b up) atab abk aoutf /\ mc_last m' b = Some (match r with Ok s => s | _ => bk end, f)
+                     /\ p = abs (mc_heap m') (match r with Ok s => s | _ => bk end) /\ mc_heap m' = h'
+    | SigmaErr x, SigmaErr x' => x = x'
+    | Crash x, Crash x' => x = x'
+    | _, _ => False
+    end.
   Proof.
-    intros (Ea & Av & Fx & Er & Eb & Eo) F S V. subst ar. unfold mc_set_last. cbn [snd fst].
-    destruct r as [s|x|x]; cbn [absr obind osim]; try reflexivity.
-    destruct (mach_frame _ _ m F Av) as [Em (Vr & Va & Vb)].
-    destruct (fixed_frame _ _ F Fx) as (Fx' & Er' & Eb' & Eo').
-    unfold inv. cbn [mc_heap mc_regs mc_lastA mc_lastB mc_res mc_fresh].
-    split; [|split; [|split; [exact Fx' | split; [congruence | split; congruence]]]].
-    - subst a. unfold amach_of, am_set_last in *.
-      cbn [mc_regs mc_lastA mc_lastB mc_res mc_fresh am_regs am_lastA am_lastB am_res am_fresh] in *.
-      inversion Em as [[E1 E2 E3]]. rewrite E1. destruct b; cbn [oabs option_map]; rewrite ?E2, ?E3; reflexivity.
-    - unfold allvalid. cbn [mc_regs mc_lastA mc_lastB]. split; [exact Vr|].
-      destruct b; split; try assumption; intros q Hq; inversion Hq; subst; apply V; reflexivity.
+    intros I F S V. unfold mc_set_last. cbn [snd fst]. rewrite <- S.
+    destruct r as [s|x|x]; cbn [absr obind]; try reflexivity.
+    destruct (inv_heap _ _ _ _ _ _ I F) as (Er & Es & Ef & LA & LB & Vr & Fx & Et & Eb & Eo).
+    unfold with_heap in *. cbn [mc_heap mc_regs mc_lastA mc_lastB mc_res mc_fresh] in *.
+    split; [|split; [unfold mc_last; cbn; destruct b; reflexivity | split; reflexivity]].
+    unfold inv, am_set_last. cbn [mc_heap mc_regs mc_lastA mc_lastB mc_res mc_fresh am_regs am_lastA am_lastB am_res am_fresh].
+    split; [exact Er|]. split; [exact Es|]. split; [exact Ef|].
+    assert (L : lastrel h' abk aoutf (Some (s, f)) (Some up)).
+    { unfold lastrel. cbn [fst snd]. split; [symmetry; exact S | apply V; reflexivity]. }
+    destruct b; (split; [first [exact L | assumption]|]); (split; [first [exact L | assumption]|]);
+      (split; [exact Vr|]); (split; [exact Fx|]); (split; [exact Et|]); (split; [exact Eb | exact Eo]).
   Qed.
 
   Lemma user_sim m a atab abk aoutf u : inv m a atab abk aoutf ->
@@ -370,7 +395,7 @@ Section Machines.
     | _, _ => False
     end.
   Proof.
-    intros (Ea & (Vr & _) & _). subst a. unfold mc_user, am_user, amach_of. cbn [am_regs].
+    intros (Er & _ & _ & _ & _ & Vr & _). unfold mc_user, am_user. rewrite Er.
     destruct u as [i|]; [|split; [reflexivity | intros q Hq; discriminate]].
     destruct (nth_error (mc_regs m) i) as [p|] eqn:E.
     - rewrite (map_nth_error _ _ _ E). split; [reflexivity|]. intros q Hq. inversion Hq; subst.
@@ -380,41 +405,53 @@ Section Machines.
       rewrite En. reflexivity.
   Qed.
 
-  Lemma run_sim m a atab abk aoutf b :
-    inv m a atab abk aoutf ->
-    (forall p, mc_last m b = Some p -> owned (mc_heap m) p) ->
+  (* convert_rule on every rule + finalize with the pipeline p of the backend object, when p still owns
+     its objects and was built for the requested format *)
+  Lemma run_sim m a' atab abk aoutf b f p :
+    inv m a' atab abk aoutf -> mc_last m b = Some (p, f) -> owned (mc_heap m) p ->
     osim (mc_run f rules m b)
-         (match am_last a b with
-          | None => Crash C_Harness
-          | Some p => obind (abs_run f p rules) (fun r => Ok (am_with_res a r))
-          end) atab abk aoutf.
+         (obind (abs_run f (abs (mc_heap m) p) rules) (fun r => Ok (am_with_res a' r))) atab abk aoutf.
   Proof.
-    intros (Ea & Av & Fx & Er & Eb & Eo) O. unfold mc_run.
-    assert (El : am_last a b = oabs (mc_heap m) (mc_last m b)).
-    { subst a. unfold am_last, mc_last, amach_of. cbn. destruct b; reflexivity. }
-    rewrite El. destruct (mc_last m b) as [p|]; cbn [oabs option_map osim]; [|reflexivity].
-    rewrite <- (behaviour _ f p rules (O p eq_refl)).
+    intros I L O. unfold mc_run. rewrite L. cbn [fst].
+    rewrite <- (behaviour _ f p rules O).
     pose proof (run_pres (mc_heap m) f p rules) as S. apply same_frame in S.
     destruct (m_run (mc_heap m) f p rules) as [h' r]. cbn [fst snd] in *.
     destruct r as [x|x|x]; cbn [obind osim]; try reflexivity.
-    destruct (mach_frame _ _ m S Av) as [Em (Vr & Va & Vb)].
-    destruct (fixed_frame _ _ S Fx) as (Fx' & Er' & Eb' & Eo').
-    unfold inv. cbn [mc_heap mc_regs mc_lastA mc_lastB mc_res mc_fresh].
-    split; [|split; [repeat split; assumption | split; [exact Fx' | split; [congruence | split; congruence]]]].
-    subst a. unfold amach_of, am_with_res in *.
-    cbn [mc_regs mc_lastA mc_lastB mc_res mc_fresh am_regs am_lastA am_lastB am_res am_fresh] in *.
-    inversion Em as [[E1 E2 E3]]. rewrite E1, E2, E3. reflexivity.
+    destruct (inv_heap _ _ _ _ _ _ I S) as (Er & Es & Ef & LA & LB & Vr & Fx & Et & Eb & Eo).
+    unfold with_heap in *. cbn [mc_heap mc_regs mc_lastA mc_lastB mc_res mc_fresh] in *.
+    unfold inv, am_with_res. cbn [mc_heap mc_regs mc_lastA mc_lastB mc_res mc_fresh am_regs am_lastA am_lastB am_res am_fresh].
+    repeat (split; [first [assumption | reflexivity]|]). assumption.
+  Qed.
+
+  (* init_processing_pipeline(f) with user pipeline up, then the conversion: Backend.convert(), and
+     convert_rule() on a backend object that has no pipeline yet *)
+  Lemma convert_sim m a atab abk aoutf b f up :
+    inv m a atab abk aoutf -> ovalid (mc_heap m) up ->
+    osim (obind (mc_set_last m b f (init (mc_heap m) f bk up (outf f))) (fun m' => mc_run f rules m' b))
+         (obind (ainit f abk (oabs (mc_heap m) up) (aoutf f)) (fun p =>
+          obind (abs_run f p rules) (fun r => Ok (am_with_res (am_set_last a b (oabs (mc_heap m) up)) r))))
+         atab abk aoutf.
+  Proof.
+    intros I Vu. pose proof I as (_ & _ & _ & _ & _ & _ & (_ & Vbk & Vof) & _ & Eb & Eo).
+    destruct (init (mc_heap m) f bk up (outf f)) as [h' r] eqn:Ei.
+    destruct (init_sim _ _ _ _ _ _ _ Vbk (Vof f) Vu Ei) as (S & F & V).
+    rewrite <- Eb, <- Eo in S.
+    pose proof (setlast_sim m a atab abk aoutf b f (oabs (mc_heap m) up) h' r I F S (fun s Hs => proj1 (V s Hs))) as L.
+    destruct (mc_set_last m b f (h', r)) as [m'|x|x] eqn:Em;
+      destruct (ainit f abk (oabs (mc_heap m) up) (aoutf f)) as [p|x'|x']; cbn [obind osim]; try contradiction; try exact L.
+    destruct L as (I' & L' & Ep & Eh). subst p.
+    destruct r as [s|x|x]; try (unfold mc_set_last in Em; cbn in Em; discriminate).
+    apply (run_sim m' (am_set_last a b (oabs (mc_heap m) up)) atab abk aoutf b f s I' L').
+    rewrite Eh. apply (V s eq_refl).
   Qed.
 
   Lemma step_sim m a atab abk aoutf o :
     inv m a atab abk aoutf -> run_dom m o true = true ->
-    osim (mstep f t bk outf rules m o) (astep f atab abk aoutf rules (Ok a) o) atab abk aoutf.
+    osim (mstep t bk outf rules m o) (astep atab abk aoutf rules (Ok a) o) atab abk aoutf.
   Proof.
-    intros I D. pose proof I as (Ea & Av & Fx & Er & Eb & Eo).
-    destruct Av as (Vr & Va & Vb). destruct Fx as (Vt & Vbk & Vof).
-    assert (Efr : am_fresh a = mc_fresh m) by (subst a; reflexivity).
-    assert (Erg : am_regs a = map (abs (mc_heap m)) (mc_regs m)) by (subst a; reflexivity).
-    destruct o as [e|specs|l|b u|b|b u]; cbn [mstep astep obind].
+    intros I D. pose proof I as (Erg & Es & Efr & LA & LB & Vr & Fx & Er & Eb & Eo).
+    destruct Fx as (Vt & Vbk & Vof).
+    destruct o as [e|specs|l|b u f|b f|b u f]; cbn [mstep astep obind].
     - (* OpTree *)
       rewrite Erg, map_length, Efr. destruct (itree_ok (length (mc_regs m)) e) eqn:Ok_.
       + destruct (to_tree_ok _ _ Ok_) as [tr Et]. rewrite Et.
@@ -438,26 +475,32 @@ Section Machines.
       pose proof (user_sim m a atab abk aoutf u I) as U.
       destruct (mc_user m u) as [up|x|x], (am_user a u) as [aup|x'|x']; cbn [obind osim]; try contradiction; try exact U.
       destruct U as [Eu Vu]. subst aup.
-      destruct (init (mc_heap m) f bk up outf) as [h' r] eqn:Ei.
-      destruct (init_sim _ _ _ _ _ _ _ Vbk Vof Vu Ei) as (S & F & V).
-      apply setlast_sim; try assumption; [subst abk aoutf; exact S | intros s Hs; apply V; exact Hs].
+      destruct (init (mc_heap m) f bk up (outf f)) as [h' r] eqn:Ei.
+      destruct (init_sim _ _ _ _ _ _ _ Vbk (Vof f) Vu Ei) as (S & F & V).
+      rewrite <- Eb, <- Eo in S.
+      pose proof (setlast_sim m a atab abk aoutf b f (oabs (mc_heap m) up) h' r I F S (fun s Hs => proj1 (V s Hs))) as L.
+      destruct (mc_set_last m b f (h', r)) as [m'|x|x];
+        destruct (ainit f abk (oabs (mc_heap m) up) (aoutf f)) as [p|x'|x']; cbn [obind osim]; try contradiction; try exact L.
+      apply L.
     - (* OpRun *)
       cbn [run_dom andb] in D.
-      apply run_sim; [exact I|]. intros p Hp. rewrite Hp in D. apply ownedb_owned. exact D.
+      assert (LR : lastrel (mc_heap m) abk aoutf (mc_last m b) (am_last a b)) by (unfold mc_last, am_last; destruct b; assumption).
+      destruct (mc_last m b) as [[p f0]|] eqn:Lm.
+      + cbn [fst snd] in D. apply andb_true_iff in D. destruct D as [Do Df]. apply fmt_eqb_eq in Df. subst f0.
+        unfold lastrel in LR. destruct (am_last a b) as [up|] eqn:La; [|contradiction]. cbn [fst snd] in LR.
+        destruct LR as [Ea Vp]. rewrite Ea. cbn [obind].
+        apply (run_sim m (am_set_last a b up) atab abk aoutf b f p); [|exact Lm | apply ownedb_owned; exact Do].
+        (* the specification's record of the backend object does not change *)
+        destruct I as (A1 & A2 & A3 & A4 & A5 & A6 & A7 & A8 & A9 & A10).
+        unfold inv, am_set_last. cbn [am_regs am_lastA am_lastB am_res am_fresh].
+        unfold am_last in La.
+        destruct b; rewrite <- ?La; repeat (split; [first [assumption | reflexivity]|]); assumption.
+      + unfold lastrel in LR. destruct (am_last a b) as [up|] eqn:La; [contradiction|].
+        apply (convert_sim m a atab abk aoutf b f None I). intros q Hq. discriminate.
     - (* OpConvert *)
       pose proof (user_sim m a atab abk aoutf u I) as U.
       destruct (mc_user m u) as [up|x|x], (am_user a u) as [aup|x'|x']; cbn [obind osim]; try contradiction; try exact U.
-      destruct U as [Eu Vu]. subst aup.
-      destruct (init (mc_heap m) f bk up outf) as [h' r] eqn:Ei.
-      destruct (init_sim _ _ _ _ _ _ _ Vbk Vof Vu Ei) as (S & F & V).
-      pose proof (setlast_sim m a atab abk aoutf b h' r _ I F S (fun s Hs => proj1 (V s Hs))) as L.
-      rewrite Eb, Eo in L |- *. unfold oabs in *. rewrite <- S in L |- *. rewrite <- Eb, <- Eo in L |- *.
-      destruct r as [s|x0|x0]; unfold mc_set_last in *; cbn [absr snd fst obind osim] in L |- *; try exact L.
-      match goal with |- osim (mc_run f rules ?m' b) _ _ _ _ =>
-        pose proof (run_sim m' (am_set_last a b (abs h' s)) atab abk aoutf b L) as R end.
-      assert (Hl : am_last (am_set_last a b (abs h' s)) b = Some (abs h' s)) by (destruct b; reflexivity).
-      rewrite Hl in R. apply R. intros p Hp. unfold mc_last in Hp. cbn in Hp.
-      assert (p = s) by (destruct b; inversion Hp; reflexivity). subst p. apply (V s eq_refl).
+      destruct U as [Eu Vu]. subst aup. apply convert_sim; assumption.
   Qed.
 End Machines.
 
@@ -468,24 +511,24 @@ Proof.
   apply andb_true_iff in H. destruct H as [-> H]. split; [reflexivity | exact H].
 Qed.
 
-Lemma fold_err_m f reg bk outf rules prog : forall mo d, (forall m, mo <> Ok m) ->
-  fold_left (mstep_acc f reg bk outf rules) prog (mo, d) = (mo, d).
+Lemma fold_err_m reg bk outf rules prog : forall mo d, (forall m, mo <> Ok m) ->
+  fold_left (mstep_acc reg bk outf rules) prog (mo, d) = (mo, d).
 Proof.
   induction prog as [|o prog IH]; intros mo d H; [reflexivity|]. cbn [fold_left].
   unfold mstep_acc at 2. cbn [fst snd]. destruct mo as [m|t|t]; [exfalso; apply (H m); reflexivity | |]; apply IH; exact H.
 Qed.
-Lemma fold_err_a f areg abk aoutf rules prog : forall ao, (forall a, ao <> Ok a) ->
-  fold_left (astep f areg abk aoutf rules) prog ao = ao.
+Lemma fold_err_a areg abk aoutf rules prog : forall ao, (forall a, ao <> Ok a) ->
+  fold_left (astep areg abk aoutf rules) prog ao = ao.
 Proof.
   induction prog as [|o prog IH]; intros ao H; [reflexivity|]. cbn [fold_left].
   destruct ao as [a|t|t]; [exfalso; apply (H a); reflexivity | |]; cbn [astep obind]; apply IH; intros a; discriminate.
 Qed.
 
-Lemma fold_sim f reg bk outf rules areg abk aoutf prog : objs_only reg -> forall mo d ao,
+Lemma fold_sim reg bk outf rules areg abk aoutf prog : objs_only reg -> forall mo d ao,
   (d = true -> osim reg bk outf mo ao areg abk aoutf) ->
-  snd (fold_left (mstep_acc f reg bk outf rules) prog (mo, d)) = true ->
-  osim reg bk outf (fst (fold_left (mstep_acc f reg bk outf rules) prog (mo, d)))
-       (fold_left (astep f areg abk aoutf rules) prog ao) areg abk aoutf.
+  snd (fold_left (mstep_acc reg bk outf rules) prog (mo, d)) = true ->
+  osim reg bk outf (fst (fold_left (mstep_acc reg bk outf rules) prog (mo, d)))
+       (fold_left (astep areg abk aoutf rules) prog ao) areg abk aoutf.
 Proof.
   intros O. induction prog as [|o prog IH]; intros mo d ao H D; cbn [fold_left] in *.
   - cbn [fst snd] in *. apply H. exact D.
@@ -572,31 +615,39 @@ Proof.
     + destruct (conv_tab l1 tn), (conv_tab (map adef ds) tn); exact I.
 Qed.
 
-(* FULL STATEMENT (false: C14_reuse_refuted): the premise `snd (mexec ...) = true` dropped.
-   For every history of API calls over a resolver table of registered objects (identifiers
-   arbitrary) in which the initial objects are distinct and every conversion without
-   re-initialisation runs a pipeline that still owns its objects, the heap machine shows exactly
-   what the value-only specification shows (same output, applied, state, ids, vars, or the same
-   error). *)
-Theorem history_sound f defs tn bkd outd rules prog h0 l :
+(* FULL STATEMENT (false: C14_history_refuted, C14_history_format_refuted): the premise
+   `snd (mexec ...) = true` dropped.
+   For every history of API calls on two backend objects of one class - bracketings, sums, resolver
+   calls over a table of registered objects, init_processing_pipeline / convert / convert_rule with a
+   format and a user pipeline chosen per call - in which the initial objects are distinct and every
+   convert_rule() on an initialised backend object runs a pipeline that still owns its objects and was
+   built for the requested format, the heap machine shows exactly what the value-only specification
+   shows: backend + current user pipeline + output-format pipeline OF THE REQUESTED FORMAT, staged. *)
+Theorem history_sound defs tn bkd od ot os rules prog h0 l :
   tn_objs tn ->
-  mk_defs h_empty (defs ++ [bkd; outd]) = (h0, Ok l) ->
-  snd (mexec f defs tn bkd outd rules prog) = true ->
-  fst (mexec f defs tn bkd outd rules prog)
-  = aexec f (map adef defs) tn (apipe_of bkd) (apipe_of outd) rules prog.
+  mk_defs h_empty (defs ++ [bkd; od; ot; os]) = (h0, Ok l) ->
+  snd (mexec defs tn bkd od ot os rules prog) = true ->
+  fst (mexec defs tn bkd od ot os rules prog)
+  = aexec (map adef defs) tn (apipe_of bkd) (by_fmt (apipe_of od) (apipe_of ot) (apipe_of os)) rules prog.
 Proof.
   intros TO E0 D. unfold mexec in *. rewrite E0 in *. cbn [fst snd] in *.
   destruct (mk_defs_spec _ _ _ _ E0) as (_ & _ & F).
   apply Forall2_app_inv_l in F. destruct F as (l1 & l2 & F1 & F2 & ->).
-  inversion F2 as [|? bk ? l3 Rb F3]; subst. inversion F3 as [|? outf ? l4 Ro F4]; subst. inversion F4; subst.
+  inversion F2 as [|? bk ? l3 Rb F3]; subst. inversion F3 as [|? o1 ? l4 R1 F4]; subst.
+  inversion F4 as [|? o2 ? l5 R2 F5]; subst. inversion F5 as [|? o3 ? l6 R3 F6]; subst. inversion F6; subst.
   assert (Len : length l1 = length defs) by (symmetry; eapply F2_len; exact F1).
   rewrite <- Len in *.
-  assert (N1 : nth_error (l1 ++ [bk; outf]) (length l1) = Some bk).
+  assert (N0 : nth_error (l1 ++ [bk; o1; o2; o3]) (length l1) = Some bk).
   { rewrite nth_error_app2 by lia. rewrite Nat.sub_diag. reflexivity. }
-  assert (N2 : nth_error (l1 ++ [bk; outf]) (S (length l1)) = Some outf).
-  { rewrite nth_error_app2 by lia. replace (S (length l1) - length l1)%nat with 1%nat by lia. reflexivity. }
-  rewrite N1, N2 in *. rewrite firstn_app, Nat.sub_diag, firstn_all in *. cbn [firstn] in *. rewrite app_nil_r in *.
-  destruct (def_rel_abs _ _ _ Rb) as [Gb Vb], (def_rel_abs _ _ _ Ro) as [Go Vo].
+  assert (N1 : nth_error (l1 ++ [bk; o1; o2; o3]) (1 + length l1) = Some o1).
+  { rewrite nth_error_app2 by lia. replace (1 + length l1 - length l1)%nat with 1%nat by lia. reflexivity. }
+  assert (N2 : nth_error (l1 ++ [bk; o1; o2; o3]) (2 + length l1) = Some o2).
+  { rewrite nth_error_app2 by lia. replace (2 + length l1 - length l1)%nat with 2%nat by lia. reflexivity. }
+  assert (N3 : nth_error (l1 ++ [bk; o1; o2; o3]) (3 + length l1) = Some o3).
+  { rewrite nth_error_app2 by lia. replace (3 + length l1 - length l1)%nat with 3%nat by lia. reflexivity. }
+  rewrite N0, N1, N2, N3 in *. rewrite firstn_app, Nat.sub_diag, firstn_all in *. cbn [firstn] in *. rewrite app_nil_r in *.
+  destruct (def_rel_abs _ _ _ Rb) as [Gb Vb], (def_rel_abs _ _ _ R1) as [G1 V1],
+           (def_rel_abs _ _ _ R2) as [G2 V2], (def_rel_abs _ _ _ R3) as [G3 V3].
   assert (Gl : map (gval h0) l1 = map adef defs /\ Forall (valid h0) l1).
   { clear - F1. induction F1 as [|d p ds ps R F IH]; [split; constructor|].
     destruct IH as [IH1 IH2]. destruct (def_rel_abs _ _ _ R) as [G V]. cbn [map]. rewrite G, IH1.
@@ -606,47 +657,72 @@ Proof.
   destruct (conv_tab l1 tn) as [t|], (conv_tab (map adef defs) tn) as [atab|]; try contradiction; [|reflexivity].
   destruct CT as (Et & Ot & Vt).
   set (m0 := {| mc_heap := h0; mc_regs := l1; mc_lastA := None; mc_lastB := None; mc_res := None; mc_fresh := 0 |}) in *.
-  pose proof (fold_sim f t bk outf rules atab (apipe_of bkd) (apipe_of outd) prog Ot
+  pose proof (fold_sim t bk (by_fmt o1 o2 o3) rules atab (apipe_of bkd) (by_fmt (apipe_of od) (apipe_of ot) (apipe_of os)) prog Ot
                 (Ok m0) true
                 (Ok {| am_regs := map fst (map adef defs); am_lastA := None; am_lastB := None; am_res := None; am_fresh := 0 |})) as S.
-  destruct (fold_left (mstep_acc f t bk outf rules) prog (Ok m0, true)) as [mo d]. cbn [fst snd] in *.
+  destruct (fold_left (mstep_acc t bk (by_fmt o1 o2 o3) rules) prog (Ok m0, true)) as [mo d]. cbn [fst snd] in *.
   match type of S with ?P -> _ => assert (HP : P) end.
-  { intros _. cbn [osim]. unfold inv. subst m0. cbn [mc_heap]. split; [|split; [|split; [|split; [|split]]]].
-    - unfold amach_of. cbn [mc_regs mc_lastA mc_lastB mc_res mc_fresh oabs option_map]. f_equal.
-      rewrite <- Gl, !map_map. reflexivity.
-    - unfold allvalid. cbn. split; [exact Vl|]. split; intros q Hq; discriminate.
-    - unfold fixedok. repeat split; assumption.
-    - exact Et.
-    - change (apipe_of bkd) with (fst (adef bkd)). rewrite <- Gb. reflexivity.
-    - change (apipe_of outd) with (fst (adef outd)). rewrite <- Go. reflexivity. }
+  { intros _. cbn [osim]. unfold inv. subst m0.
+    cbn [mc_heap mc_regs mc_lastA mc_lastB mc_res mc_fresh am_regs am_lastA am_lastB am_res am_fresh lastrel].
+    split; [rewrite <- Gl, !map_map; reflexivity|]. split; [reflexivity|]. split; [reflexivity|].
+    split; [exact I|]. split; [exact I|]. split; [exact Vl|].
+    split; [unfold fixedok; split; [exact Vt|]; split; [exact Vb|]; intros [| |]; assumption|].
+    split; [exact Et|].
+    split; [change (apipe_of bkd) with (fst (adef bkd)); rewrite <- Gb; reflexivity|].
+    intros [| |]; cbn [by_fmt].
+    - change (apipe_of od) with (fst (adef od)). rewrite <- G1. reflexivity.
+    - change (apipe_of ot) with (fst (adef ot)). rewrite <- G2. reflexivity.
+    - change (apipe_of os) with (fst (adef os)). rewrite <- G3. reflexivity. }
   specialize (S HP D).
-  destruct mo as [m|x|x]; destruct (fold_left (astep _ _ _ _ _) prog _) as [a|x'|x']; cbn [osim] in S; try contradiction;
+  destruct mo as [m|x|x]; destruct (fold_left (astep _ _ _ _) prog _) as [a|x'|x']; cbn [osim] in S; try contradiction;
     cbn [obind]; try congruence.
-  destruct S as (Ea & _). subst a. unfold amach_of. cbn [am_res]. reflexivity.
+  destruct S as (_ & Es & _). rewrite Es. reflexivity.
 Qed.
 
 (* the witness of D18 as a history: a + b, backend initialised with it, a + b once more, convert_rule *)
 Definition w_defA : pdef := {| d_items := [w_item]; d_post := []; d_fin := []; d_vars := []; d_prio := 0%Z; d_name := Some [97] |}.
 Definition w_defE (n : option str) : pdef := {| d_items := []; d_post := []; d_fin := []; d_vars := []; d_prio := 0%Z; d_name := n |}.
 Definition w_sum : itree := IPlus (ILeaf 0) (ILeaf 1).
-Definition w_prog_stale : list op := [OpTree w_sum; OpInit false (Some 2%nat); OpTree w_sum; OpRun false].
-Definition w_prog_fresh : list op := [OpTree w_sum; OpTree w_sum; OpConvert false (Some 3%nat)].
+Definition w_prog_stale : list op := [OpTree w_sum; OpInit false (Some 2%nat) FState; OpTree w_sum; OpRun false FState].
+Definition w_prog_fresh : list op := [OpTree w_sum; OpTree w_sum; OpConvert false (Some 3%nat) FState].
+(* the witness of D30: convert() for format test, then convert_rule() for format state *)
+Definition w_defO (v : str) : pdef :=
+  {| d_items := [ {| i_uid := 2; i_id := v; i_kind := KAddCond [111] v; i_cond := None |} ]; d_post := []; d_fin := [];
+     d_vars := []; d_prio := 0%Z; d_name := None |}.
+Definition w_prog_fmt : list op := [OpConvert false (Some 0%nat) FTest; OpRun false FState].
 
 Lemma history_refuted :
-  exists f defs tn bkd outd rules prog l,
-    tn_objs tn /\ snd (mk_defs h_empty (defs ++ [bkd; outd])) = Ok l /\
-    snd (mexec f defs tn bkd outd rules prog) = false /\
-    fst (mexec f defs tn bkd outd rules prog)
-    <> aexec f (map adef defs) tn (apipe_of bkd) (apipe_of outd) rules prog.
+  exists defs tn bkd od ot os rules prog l,
+    tn_objs tn /\ snd (mk_defs h_empty (defs ++ [bkd; od; ot; os])) = Ok l /\
+    snd (mexec defs tn bkd od ot os rules prog) = false /\
+    fst (mexec defs tn bkd od ot os rules prog)
+    <> aexec (map adef defs) tn (apipe_of bkd) (by_fmt (apipe_of od) (apipe_of ot) (apipe_of os)) rules prog.
 Proof.
-  exists FState, [w_defA; w_defE (Some [98])], [], (w_defE None), (w_defE None), w_rules, w_prog_stale.
+  exists [w_defA; w_defE (Some [98])], [], (w_defE None), (w_defE None), (w_defE None), (w_defE None), w_rules, w_prog_stale.
+  eexists. split; [intros e []|]. split; [vm_compute; reflexivity|]. split; [vm_compute; reflexivity|]. vm_compute. discriminate.
+Qed.
+
+(* ... and convert_rule() for a format other than the one the backend object's pipeline was built for
+   runs the other format's output-format pipeline (D30) *)
+Lemma history_format_refuted :
+  exists defs tn bkd od ot os rules prog l,
+    tn_objs tn /\ snd (mk_defs h_empty (defs ++ [bkd; od; ot; os])) = Ok l /\
+    snd (mexec defs tn bkd od ot os rules prog) = false /\
+    fst (mexec defs tn bkd od ot os rules prog)
+    <> aexec (map adef defs) tn (apipe_of bkd) (by_fmt (apipe_of od) (apipe_of ot) (apipe_of os)) rules prog.
+Proof.
+  exists [w_defE (Some [97])], [], (w_defE None), (w_defE None),
+         {| d_items := [ {| i_uid := 2; i_id := [116]; i_kind := KAddCond [111] [116]; i_cond := None |} ]; d_post := []; d_fin := [];
+            d_vars := []; d_prio := 0%Z; d_name := None |},
+         {| d_items := [ {| i_uid := 3; i_id := [115]; i_kind := KAddCond [111] [115]; i_cond := None |} ]; d_post := []; d_fin := [];
+            d_vars := []; d_prio := 0%Z; d_name := None |}, w_rules, w_prog_fmt.
   eexists. split; [intros e []|]. split; [vm_compute; reflexivity|]. split; [vm_compute; reflexivity|]. vm_compute. discriminate.
 Qed.
 
 Lemma history_inhabited :
-  exists l, snd (mk_defs h_empty ([w_defA; w_defE (Some [98])] ++ [w_defE None; w_defE None])) = Ok l /\
-  snd (mexec FState [w_defA; w_defE (Some [98])] [] (w_defE None) (w_defE None) w_rules w_prog_fresh) = true /\
-  exists r, fst (mexec FState [w_defA; w_defE (Some [98])] [] (w_defE None) (w_defE None) w_rules w_prog_fresh) = Ok r.
+  exists l, snd (mk_defs h_empty ([w_defA; w_defE (Some [98])] ++ [w_defE None; w_defE None; w_defE None; w_defE None])) = Ok l /\
+  snd (mexec [w_defA; w_defE (Some [98])] [] (w_defE None) (w_defE None) (w_defE None) (w_defE None) w_rules w_prog_fresh) = true /\
+  exists r, fst (mexec [w_defA; w_defE (Some [98])] [] (w_defE None) (w_defE None) (w_defE None) (w_defE None) w_rules w_prog_fresh) = Ok r.
 Proof.
   eexists. split; [vm_compute; reflexivity|]. split; [vm_compute; reflexivity|]. eexists. vm_compute. reflexivity.
 Qed.
